@@ -385,13 +385,18 @@ func ruleConfinement(c *Ctx) {
 	}
 	byFn := map[*ssa.Function][]acc{}
 	for _, q := range confinedConn {
-		f := p.Field(q)
-		if f == nil {
+		fs := []*types.Var{p.Field(q)}
+		if fs[0] == nil && strings.HasSuffix(q, ".flags") {
+			fs = p.flagFields(q)
+		}
+		if len(fs) == 0 || fs[0] == nil {
 			c.undecided(q, "anchor", "-", "field not found")
 			continue
 		}
-		for _, fa := range p.faddrs[f] {
-			byFn[fa.Parent()] = append(byFn[fa.Parent()], acc{fa.Parent(), fa, q})
+		for _, f := range fs {
+			for _, fa := range p.faddrs[f] {
+				byFn[fa.Parent()] = append(byFn[fa.Parent()], acc{fa.Parent(), fa, q})
+			}
 		}
 	}
 	var fns []*ssa.Function
